@@ -544,7 +544,9 @@ class X12LoopDataNode(X12DataNode):
         ret.end_loops = list(self.end_loops)
         ret.parent = self.parent
         for child in self.children:
-            ret.children.append(child.copy())
+            child_copy = child.copy()
+            child_copy.parent = ret
+            ret.children.append(child_copy)
         return ret
 
     @property
